@@ -703,8 +703,15 @@ func materialise(c *caseCfg) string {
 	if err != nil {
 		panic(err)
 	}
+	needAll := false // the whole registry only when a flow uses real processors (18 definitions parsed twice per case)
+	for _, f := range c.flows {
+		needAll = needAll || f.real != ""
+	}
 	for _, en := range ents {
 		if en.IsDir() || !strings.HasSuffix(en.Name(), ".yaml") {
+			continue
+		}
+		if !needAll && !strings.HasPrefix(en.Name(), "quota_processor_") {
 			continue
 		}
 		b, err := os.ReadFile(filepath.Join(regDir, en.Name()))
@@ -870,7 +877,7 @@ func processorQueues(s *streams.Stream) []publictypes.SharedQueueI {
 // driver of the (mock) clock that makes the background loops of the processors (Queue: every 100 ms) spin.  A data
 // race the Go runtime detects ("concurrent map iteration and map write") or a panic in a background goroutine kills
 // the worker process: the supervisor records `crash:<kind>`.
-func (e *engine) stress(kind string, ms, workers int) {
+func (e *engine) stress(kind string, ms, workers int) bool {
 	stop := make(chan struct{})
 	var wg sync.WaitGroup
 	var seq atomic.Int64
@@ -973,8 +980,24 @@ func (e *engine) stress(kind string, ms, workers int) {
 	}
 	time.Sleep(time.Duration(ms) * time.Millisecond)
 	close(stop)
-	wg.Wait() // waiters of a Queue leave through their TTL: the clock driver keeps running until they are out
+	// waiters of a Queue leave through their TTL: the clock driver keeps running until they are out — but never
+	// wait for them without bound: transactions that do not return within 4 s are reported (`timeout`)
+	finished := make(chan struct{})
+	go func() { wg.Wait(); close(finished) }()
+	ok := true
+	select {
+	case <-finished:
+	case <-time.After(4 * time.Second):
+		ok = false
+	}
 	close(bgStop)
-	bg.Wait()
+	bgDone := make(chan struct{})
+	go func() { bg.Wait(); close(bgDone) }()
+	select {
+	case <-bgDone:
+	case <-time.After(2 * time.Second):
+		ok = false
+	}
 	_ = seq.Load()
+	return ok
 }
